@@ -31,6 +31,7 @@ from automata.tm.mntm import MNTM
 from automata.tm.ntm import NTM
 
 from harness import enc_tm as E
+from harness import tm_long as TL
 from harness.common import Ctx, call, toks
 
 LEVEL = "proof"
@@ -41,6 +42,9 @@ RULE = ("cases = (valid DTM / NTM / MNTM, input, number n of next() calls); corp
         "nondeterministic, 1–3 tapes, adversarial state-name pools, MNTM transition lists with a repeated entry "
         "and given as tuples, inputs with a symbol outside the tape alphabet), a two-tape guess-and-verify machine "
         "whose breadth-first frontier exceeds 8192 pending configurations (real run vs. reference only) "
+        ", long tapes (inputs of 62–300 symbols: zig-zag programs sweeping to the far right, off the right end, back "
+        "over the whole tape and off the left end, as DTM / NTM (also branching) / 1-tape MNTM, a 2-tape copy-and-return "
+        "machine, shuttles that grow a 50–62-cell tape past 64 cells at both ends) "
         "and mutated invalid definitions for validate(); a case is "
         "non-trivial when at least 3 configurations are yielded; distinct = distinct (kind, definition, "
         "input, n)")
@@ -197,6 +201,18 @@ def _describe(kind, m, w, n):
     return dict(kind=kind, machine=repr(m), word=w, n=n)
 
 
+def _short(w: str) -> str:
+    return repr(w) if len(w) <= 40 else f"{w[:16]!r}…{w[-8:]!r} (length {len(w)})"
+
+
+def _detail(w: str, n: int, **parts):
+    """Observations kept in a replay file for the reader (replay() re-runs machine/word/n and does not use
+    them): left out for long runs, where they are megabytes of cells."""
+    if n * (len(w) + 1) > 4000:
+        return dict(detail=f"{n} observed configurations of a tape of {len(w)}+ cells left out; re-run the replay")
+    return {k: (v() if callable(v) else v) for k, v in parts.items()}
+
+
 def check_dtm(ctx: Ctx, m: DTM, w: str, n: int, origin: str):
     if E.skip(ctx):
         return None
@@ -226,8 +242,8 @@ def check_dtm(ctx: Ctx, m: DTM, w: str, n: int, origin: str):
         wrong.append("a tape lost the machine's blank symbol")
     case = _describe("DTM", m, w, n)
     if wrong:
-        ctx.prop_fail(f"DTM on {w!r} ({n} next() calls): " + "; ".join(wrong),
-                      dict(case, impl=impl, textbook=(oys, oend)), None)
+        ctx.prop_fail(f"DTM on {_short(w)} ({n} next() calls): " + "; ".join(wrong),
+                      dict(case, **_detail(w, n, impl=impl, textbook=(oys, oend))), None)
     elif impl != mod:
         ctx.corr_diff("DTM_STEPS", case, impl, mod)
     if ctx.evaluations % 1499 == 1:
@@ -264,8 +280,9 @@ def check_ntm(ctx: Ctx, m: NTM, w: str, n: int, origin: str):
         wrong.append(f"generator ends with {end}, textbook run with {oend}")
     case = _describe("NTM", m, w, n)
     if wrong:
-        ctx.prop_fail(f"NTM on {w!r} ({n} next() calls): " + "; ".join(wrong),
-                      dict(case, impl=impl, textbook=([sorted(map(repr, l)) for l in oys], oend)), None)
+        ctx.prop_fail(f"NTM on {_short(w)} ({n} next() calls): " + "; ".join(wrong),
+                      dict(case, **_detail(w, n, impl=impl,
+                                           textbook=lambda: ([sorted(map(repr, l)) for l in oys], oend))), None)
     elif impl != mod:
         ctx.corr_diff("NTM_LEVELS", case, impl, mod)
     if ctx.evaluations % 1499 == 2:
@@ -315,7 +332,8 @@ def check_mntm(ctx: Ctx, m: MNTM, w: str, n: int, origin: str):
         ctx.stat("mntm_input_with_a_symbol_outside_the_tape_alphabet")
     case = _describe("MNTM", m, w, n)
     if wrong:
-        ctx.prop_fail(f"MNTM on {w!r} ({n} next() calls): " + "; ".join(wrong), dict(case, impl=impl), None)
+        ctx.prop_fail(f"MNTM on {_short(w)} ({n} next() calls): " + "; ".join(wrong),
+                      dict(case, **_detail(w, n, impl=impl)), None)
     elif impl != mod:
         ctx.corr_diff("MNTM_VISIT", case, impl, mod)
     if ctx.evaluations % 1499 == 3:
@@ -475,6 +493,80 @@ def wide_frontier(ctx: Ctx):
     if ctx.thorough():
         check_wide(ctx, acc, "10" * 8, "wide_frontier")
         check_wide(ctx, rej, "0" * 14, "wide_frontier")
+
+
+# ------------------------------------------------------------------ long tapes (round 4)
+def _halting_calls(d: DTM, w: str, cap: int) -> int:
+    """Number of next() calls after which the textbook run of `d` on `w` has ended (+1), at most cap."""
+    oys, oend, _ = oracle_dtm(d, w, cap)
+    return min(cap, len(oys) + 2) if oend != "run" else cap
+
+
+def _stat_tape(ctx: Ctx, cells: int):
+    ctx.stat("long_tape_cells_" + ("300+" if cells >= 300 else "256-299" if cells >= 256 else "128-255" if cells >= 128
+                                    else "64-127" if cells >= 64 else "below_64"))
+
+
+def long_tapes(ctx: Ctx):
+    """Stored tapes of 63–300 cells: zig-zag programs whose head sweeps to the far right, off the right end,
+    back over the whole tape and off the left end (and on, and back again), as DTM, as NTM (also with a
+    two-way branch at a turning point), as 1-tape MNTM and as a 2-tape copy machine; shuttles that grow a
+    short tape past 64 cells by themselves.  Judged like every other case: textbook interpreter on dict
+    tapes (two-way infinite), head-relative views, and the model through drv_tm."""
+    rng = ctx.rng
+    thorough = ctx.thorough()
+    lengths = list(TL.LONG_LENGTHS)
+    if thorough:
+        lengths = lengths * 3 + [rng.randint(63, 300) for _ in range(30)]
+    for L in lengths:
+        big = L >= 200
+        names, isy, tsy, blank = TL.rand_parts(rng, 24)
+        prog = TL.rand_program(rng, tsy, blank, max_sweeps=2 if big and not thorough else 4)
+        table, final, used = TL.compile_program(prog, names, tsy, blank)
+        kw = TL.kw_of(used, isy, tsy, blank, final, used[0])
+        w = TL.rand_long_input(rng, isy, L)
+        d = E.dtm_from(kw, table)
+        n = _halting_calls(d, w, 5 * L + 60)
+        _stat_tape(ctx, L + 1)
+        which = rng.randrange(3) if big and not thorough else None  # the largest sizes: one class per machine
+        if which in (None, 0):
+            check_dtm(ctx, d, w, n, "long_tape_zigzag")
+        if which in (None, 1):
+            nt = E.ntm_from(kw, table)
+            check_ntm(ctx, nt, w, n, "long_tape_zigzag")
+        if which in (None, 2):
+            check_mntm(ctx, E.mntm1_from(kw, table), w, n, "long_tape_zigzag")
+        check_triple(ctx, kw, table, w, n, "long_tape_zigzag")
+        if not big or thorough:
+            # the same program with a two-way branch at the first turning point (two marks)
+            s0 = used[0]
+            r = table[s0][blank]
+            alt = (r[0], next(a for a in tsy if a != r[1]), r[2])
+            lists = {q: {a: [x] for a, x in row.items()} for q, row in table.items()}
+            lists[s0][blank] = [r, alt]
+            check_ntm(ctx, E.ntm_from_lists(kw, lists), w, n, "long_tape_zigzag_branching")
+            check_mntm(ctx, E.mntm1_from_lists(kw, lists, swap=rng.random() < 0.5), w, 2 * n,
+                       "long_tape_zigzag_branching")
+    # two tapes, the second one written by the machine
+    for L in ([63, 64, 65, 128] if not thorough else [63, 64, 65, 127, 128, 129, 255, 256, 257, 300]):
+        mkw, isy = TL.copy_and_return(rng)
+        w = TL.rand_long_input(rng, isy, L)
+        _stat_tape(ctx, L + 1)
+        check_mntm(ctx, MNTM(**mkw), w, 2 * L + 8, "long_tape_two_tapes")
+    # short inputs, the machine grows the tape past 64 cells at both ends
+    for L0 in ([50, 58, 61, 62] if not thorough else [30, 40, 50, 55, 58, 60, 61, 62, 63, 64]):
+        kw, table = TL.shuttle(rng)
+        w = TL.rand_long_input(rng, sorted(kw["input_symbols"])[0] if rng.random() < 0.5 else
+                               "".join(sorted(kw["input_symbols"])), L0)
+        n = sum(range(L0 + 1, 70)) + 5
+        _stat_tape(ctx, 69)
+        k = rng.randrange(3)
+        if k == 0 or thorough:
+            check_dtm(ctx, E.dtm_from(kw, table), w, n, "long_tape_shuttle")
+        if k == 1 or thorough:
+            check_ntm(ctx, E.ntm_from(kw, table), w, n, "long_tape_shuttle")
+        if k == 2 or thorough:
+            check_mntm(ctx, E.mntm1_from(kw, table), w, n, "long_tape_shuttle")
 
 
 # ------------------------------------------------------------------ validation stream
@@ -749,6 +841,8 @@ def run(ctx: Ctx):
         check_mntm(ctx, mm, E.rand_input(rng, mm, max_len=6), rng.choice([8, 16, 30, 45]), "random_5to6_states")
     # 3. validation
     validation_stream(ctx, ctx.budget(1000, 12000))
+    # 4. long tapes (after the other families: their case streams are unchanged)
+    long_tapes(ctx)
     E.report_watchdog(ctx)
 
 
